@@ -166,8 +166,18 @@ Lemma u_step_reject b : u_step 1 b = 1. Proof. reflexivity. Qed.
 Lemma u_loop_app s a b :
   u_loop s (a ++ b) = let '(v, s1) := u_loop s a in if v then u_loop s1 b else (false, 1).
 Proof.
-  revert s; induction a as [|x a IH]; intros s; cbn [app u_loop]; [reflexivity|].
-  destruct (u_step s x =? 1); [reflexivity|apply IH].
+  revert s; induction a as [|x a IH]; intros s; cbn [app u_loop].
+  - destruct (N.eqb_spec s 1) as [->|Hs]; cbn [negb]; [|reflexivity].
+    destruct b; reflexivity.
+  - destruct (u_step s x =? 1); [reflexivity|apply IH].
+Qed.
+
+(* a call reported valid never leaves the validator in REJECT *)
+Lemma u_loop_true_not_reject s bs st' : u_loop s bs = (true, st') -> (st' =? 1) = false.
+Proof.
+  revert s; induction bs as [|b r IH]; intros s H; cbn [u_loop] in H.
+  - inversion H; subst. now apply negb_true_iff.
+  - destruct (u_step s b =? 1); [discriminate|]. eapply IH; eauto.
 Qed.
 
 (* fail-fast: the verdict turns invalid exactly at the first octet that leads the RFC 3629 automaton to reject,
@@ -178,12 +188,9 @@ Proof.
   intros Ha Hx. rewrite u_loop_app. rewrite Ha. cbn [u_loop]. rewrite Hx. reflexivity.
 Qed.
 
-Lemma u_loop_valid_state s bs st' : u_loop s bs = (true, st') -> s <> 1 -> st' <> 1.
-Proof.
-  revert s; induction bs as [|b r IH]; intros s H Hs; cbn [u_loop] in H.
-  - inversion H; subst; exact Hs.
-  - destruct (N.eqb_spec (u_step s b) 1); [discriminate|]. eapply IH; eauto.
-Qed.
+Lemma u_loop_valid_state s bs st' : u_loop s bs = (true, st') -> st' <> 1.
+Proof. intros H. apply u_loop_true_not_reject in H. now apply N.eqb_neq. Qed.
+
 
 (* the status codes announced by the three failure hooks (values read from the source by the translator) *)
 Lemma policy_codes : code_protocol_error = 1002 /\ code_invalid_payload = 1007 /\ code_message_too_big = 1009 /\
